@@ -133,29 +133,88 @@ def conclude(ctx, proof_ok, failures, tie_cases):
 # ===================================================================================== generators
 
 def fib_data(rng, n=None, M=None, r=None, S=None):
-    """Symbol counts shaped like a Fibonacci chain under a bed of common symbols: the optimal Huffman tree is deeper than
-    the 15 bits DEFLATE allows (the length limiter must act, 15-bit codes occur), plus a contiguous run of S one-off symbols."""
+    """Literal statistics that force the Huffman length limiter: S symbols occurring once each (adjacent in the input), under
+    a chain of r symbols in which every count exceeds everything merged below it, so the optimal code is a chain of depth
+    about r + log2(S) > 15 and the rarest literals get 15-bit codes.  No byte value occurs twice in a row (no runs for the
+    RLE strategy); a short prefix varies the bit phase.  About 4-45 KB; M extra heavy symbols widen the top of the tree."""
     vals = list(range(256))
     for i in range(255, 0, -1):
         j = rng.below(i + 1)
         vals[i], vals[j] = vals[j], vals[i]
-    M = M or rng.choice([1, 8, 64])
-    r = r or rng.range(11, 18)
+    if M == 64:
+        # wide variant: 64 equally frequent values (few repeated trigrams, so the LZ matchers leave the histogram alone)
+        # over a Fibonacci chain of rare values: optimal depth about 6 + r
+        r = r or 11
+        chain = []
+        a, b = 1, 2
+        for sym in vals[64:64 + r]:
+            chain += [sym] * a
+            a, b = b, a + b
+        body = chain + [v for v in vals[:64] for _ in range(len(chain) + 24)]
+        for i in range(len(body) - 1, 0, -1):
+            j = rng.below(i + 1)
+            body[i], body[j] = body[j], body[i]
+        # reorder so that no trigram occurs twice (take the next pending byte that forms a new trigram)
+        seen = set()
+        out = []
+        pending = []
+        for x in body:
+            pending.append(x)
+            k = 0
+            while k < len(pending):
+                y = pending[k]
+                if len(out) < 2 or (out[-2], out[-1], y) not in seen:
+                    if len(out) >= 2:
+                        seen.add((out[-2], out[-1], y))
+                    out.append(y)
+                    pending.pop(k)
+                    k = 0
+                else:
+                    k += 1
+        out += pending
+        if n is not None:
+            while len(out) < n:
+                out += out[:n - len(out)]
+            out = out[:n]
+        return bytes(out)
     S = rng.choice([0, 4, 31, 40]) if S is None else S
-    commons, rare, ones = vals[:M], vals[M:M + r], vals[M + r:M + r + S]
+    r = r or (rng.range(11, 14) if S >= 4 else rng.range(16, 19))
+    M = rng.choice([0, 0, 2]) if M is None else min(M, 2)
+    w = S + 1
+    while True:
+        leaves = [w]
+        acc = w
+        for j in range(1, r):
+            leaves.append(max(acc, leaves[-1]) + 1)
+            acc += leaves[-2]
+        for j in range(M):
+            leaves.append(leaves[-1] + 1)
+        if sum(leaves) + S <= 30000 or r <= 8:      # one block: the statistics are per block
+            break
+        r -= 1
+    syms = vals[:len(leaves)]
+    ones = vals[len(leaves):len(leaves) + S]
+    counts = list(leaves)
     body = []
-    a, b = 1, 2
-    for sym in rare:
-        body += [sym] * a
-        a, b = b, a + b
-    each = max(3, (2 * a) // M)
-    for sym in commons:
-        body += [sym] * each
-    for i in range(len(body) - 1, 0, -1):
-        j = rng.below(i + 1)
-        body[i], body[j] = body[j], body[i]
-    at = rng.below(len(body) + 1)
-    out = [commons[0]] * rng.below(16) + body[:at] + ones + body[at:]
+    prev = -1
+    order = sorted(range(len(counts)), key=lambda i: -counts[i])
+    for _ in range(sum(counts)):
+        best = -1
+        for i in order[:4] if len(order) > 4 else order:
+            if i != prev and counts[i] > 0 and (best < 0 or counts[i] > counts[best]):
+                best = i
+        if best < 0:
+            for i in range(len(counts)):
+                if i != prev and counts[i] > 0 and (best < 0 or counts[i] > counts[best]):
+                    best = i
+        if best < 0:
+            break
+        body.append(syms[best])
+        counts[best] -= 1
+        prev = best
+        if counts[best] == 0 or (len(order) > 1 and counts[best] < counts[order[min(4, len(order) - 1)]]):
+            order.sort(key=lambda i: -counts[i])
+    out = [syms[-1]] * rng.below(4) + [syms[-2]] * rng.below(4) + ones + body
     if n is not None:
         while len(out) < n:
             out += out[:n - len(out)]
